@@ -557,12 +557,14 @@ fn cx_dest(cx: &mut Ctx) -> usize {
 }
 
 pub const C02_PROBES: &[&str] = &[
+    "buffer_over_64k",
     "conversion_probe_ok", "conversion_probe_interrupted",
     "record_65535", "payload_moved_with_parsed_nonempty", "held_back_header_seen", "dest_len_zero", "compress_with_stream_data",
     "stopped_mid_stream", "into_input_checked", "early_advance", "lookahead_at_handoff", "exact_fill_read", "fed_after_done",
     "noise_getvalues", "noise_unknown_type", "noise_foreign_begin", "noise_stale_params", "noise_huge_record", "noise_foreign_id",
 ];
 pub const C18H_PROBES: &[&str] = &[
+    "buffer_over_64k",
     "conversion_probe_ok", "conversion_probe_interrupted",
     "noncompliant_order", "early_advance", "rejected_selection", "rejected_selection_mid_record", "held_back_header_seen",
     "stopped_mid_stream", "into_input_checked", "dest_len_zero", "compress_with_stream_data",
@@ -659,7 +661,12 @@ pub fn stream_scenario(cx: &mut Ctx, c18: bool) -> VResult {
     let rc = gen_request(cx, noise, 60, 24, compliant, false, Phase::Stream);
     let wire = encode_all(&rc.recs);
     let need = longest_pair(&rc.recs) + 13;
-    let bufsize = pick_small_bufsize(cx, need);
+    let mut bufsize = pick_small_bufsize(cx, need);
+    if wire.len() > 65536 && cx.ch.chance(1, 2) {
+        // a buffer that can hold more than 64 KiB of raw data behind one header
+        bufsize = cx.ch.one_of(&[65552usize, 70000, 131072, 200000]);
+        cx.probe("buffer_over_64k");
+    }
     let max_conns = 5;
     let pm = model::preamble(&wire, 0, max_conns);
     let PreOutcome::Done(info) = &pm.outcome else { panic!("harness: generated preamble incomplete") };
